@@ -71,42 +71,55 @@ def run(ctx):
                 if free3 and i % 2:
                     t4 = ctx.rng.choice(sorted(free3))
                     DC.add_reference(ctx.rng, doc, names, 'autoattr:' + t3, attr_cycle[(i * 13 + 1) % len(attr_cycle)], t4); refs.append(('autoattr:' + t3, attr_cycle[(i * 13 + 1) % len(attr_cycle)][1], t4))
+        def judge(case):
+            autos_t = X.walk_real(doc.automaticstyles)
+            # ---- correspondence --------------------------------------------------------------------------
+            for tag, segs in (('content', [doc.styles, doc.body]), ('styles', [doc.masterstyles])):
+                real = [X.walk_real(s) for s in doc._used_auto_styles(segs)]
+                m = d.call('doc_used', '(' + ' '.join(X.node_sx(X.walk_real(s)) for s in segs) + ')', X.node_sx(autos_t))
+                ctx.corr('_used_auto_styles for %s.xml' % tag, case, [X.node_from_sx(x) for x in m], real)
+            DC.corr_render(ctx, doc, kinds=('content', 'styles'), tag='C10')
+            # ---- oracle ---------------------------------------------------------------------------------------
+            buf = io.BytesIO(); doc.write(buf)
+            pk = P.read_package(buf.getvalue())
+            refset = set(allrefs)
+            for part, roots in (('content.xml', [X.walk_real(doc.body)]), ('styles.xml', [X.walk_real(doc.masterstyles)])):
+                ctx.oracle_cases += 1
+                need = DC.needed(roots, autos_t[3], refset)
+                t = X.expat_parse(pk['members'][part])
+                if t[0] != 'ok':
+                    ctx.violation('part-not-parsable', dict(case, part=part), t[1], 'well-formed', {}); continue
+                written = [k for k in DC.__dict__['X'].canon(t[1])[3] if k[0] == 'E' and k[1][1] == 'automatic-styles']
+                wl = written[0][3] if written else []
+                wnames = [dict((tuple(a), v) for a, v in s[2]).get((STY, 'name')) for s in wl if s[0] == 'E']
+                key = lambda s: (s[1][1], dict((tuple(a), v) for a, v in s[2]).get((STY, 'family')), dict((tuple(a), v) for a, v in s[2]).get((STY, 'name')))
+                wkeys = [key(s) for s in wl if s[0] == 'E']
+                # every automatic style (of whatever kind) bearing a needed name must be there
+                missing = sorted(str(key(s)) for s in autos_t[3] if s[0] == 'E' and key(s)[2] in need and key(s) not in wkeys)
+                if missing:
+                    via = sorted(set(a for w, a, tg in refs if any(tk in m_ for m_ in missing for tk in tg.split())))
+                    ctx.violation('referenced-style-not-written', dict(case, part=part), {'missing': missing}, 'every needed automatic style in ' + part,
+                                  {'via': via if via else ['(transitively)']})
+                dup = sorted(set(str(x) for x in wkeys if wkeys.count(x) > 1))
+                if dup: ctx.violation('style-written-twice', dict(case, part=part), dup, 'at most once per part', {})
+                src_by_name = {key(s): X.canon(s) for s in autos_t[3] if s[0] == 'E'}
+                for s in wl:
+                    nm = key(s) if s[0] == 'E' else None
+                    if nm in src_by_name and X.canon(s) != src_by_name[nm]:
+                        ctx.violation('style-definition-changed', dict(case, part=part, style=nm), s, src_by_name[nm], {})
         case = {'styles': names, 'references': refs}
-        autos_t = X.walk_real(doc.automaticstyles)
-        # ---- correspondence --------------------------------------------------------------------------
-        for tag, segs in (('content', [doc.styles, doc.body]), ('styles', [doc.masterstyles])):
-            real = [X.walk_real(s) for s in doc._used_auto_styles(segs)]
-            m = d.call('doc_used', '(' + ' '.join(X.node_sx(X.walk_real(s)) for s in segs) + ')', X.node_sx(autos_t))
-            ctx.corr('_used_auto_styles for %s.xml' % tag, case, [X.node_from_sx(x) for x in m], real)
-        DC.corr_render(ctx, doc, kinds=('content', 'styles'), tag='C10')
-        # ---- oracle ---------------------------------------------------------------------------------------
-        buf = io.BytesIO(); doc.write(buf)
-        pk = P.read_package(buf.getvalue())
-        refset = set(allrefs)
-        for part, roots in (('content.xml', [X.walk_real(doc.body)]), ('styles.xml', [X.walk_real(doc.masterstyles)])):
-            ctx.oracle_cases += 1
-            need = DC.needed(roots, autos_t[3], refset)
-            t = X.expat_parse(pk['members'][part])
-            if t[0] != 'ok':
-                ctx.violation('part-not-parsable', dict(case, part=part), t[1], 'well-formed', {}); continue
-            written = [k for k in DC.__dict__['X'].canon(t[1])[3] if k[0] == 'E' and k[1][1] == 'automatic-styles']
-            wl = written[0][3] if written else []
-            wnames = [dict((tuple(a), v) for a, v in s[2]).get((STY, 'name')) for s in wl if s[0] == 'E']
-            key = lambda s: (s[1][1], dict((tuple(a), v) for a, v in s[2]).get((STY, 'family')), dict((tuple(a), v) for a, v in s[2]).get((STY, 'name')))
-            wkeys = [key(s) for s in wl if s[0] == 'E']
-            # every automatic style (of whatever kind) bearing a needed name must be there
-            missing = sorted(str(key(s)) for s in autos_t[3] if s[0] == 'E' and key(s)[2] in need and key(s) not in wkeys)
-            if missing:
-                via = sorted(set(a for w, a, tg in refs if any(tk in m_ for m_ in missing for tk in tg.split())))
-                ctx.violation('referenced-style-not-written', dict(case, part=part), {'missing': missing}, 'every needed automatic style in ' + part,
-                              {'via': via if via else ['(transitively)']})
-            dup = sorted(set(str(x) for x in wkeys if wkeys.count(x) > 1))
-            if dup: ctx.violation('style-written-twice', dict(case, part=part), dup, 'at most once per part', {})
-            src_by_name = {key(s): X.canon(s) for s in autos_t[3] if s[0] == 'E'}
-            for s in wl:
-                nm = key(s) if s[0] == 'E' else None
-                if nm in src_by_name and X.canon(s) != src_by_name[nm]:
-                    ctx.violation('style-definition-changed', dict(case, part=part, style=nm), s, src_by_name[nm], {})
+        judge(case)
+        # ---- the same document once more, after it has been rendered and saved: a used style gets a NEW reference to a style nothing
+        # named so far (whatever the first pass remembered about that style is out of date now)
+        named_now = set(tk for w, a, tg in refs for tk in tg.split())
+        used_now = set(tk for w, a, tg in refs if not w.startswith('auto') for tk in tg.split()) & set(names)
+        fresh = sorted(x for x in set(names) if x not in named_now)
+        if used_now and fresh:
+            host2 = sorted(used_now)[i % len(used_now)]; t5 = fresh[i % len(fresh)]; mode3 = ['autochild', 'autoattr', 'autodeep'][i % 3]
+            a5 = attr_cycle[(i * 17 + 2) % len(attr_cycle)]
+            DC.add_reference(ctx.rng, doc, names, mode3 + ':' + host2, a5, t5); refs.append((mode3 + ':' + host2 + ' (after a first save)', a5[1], t5))
+            judge({'styles': names, 'references': refs, 'second_save': True})
+            ctx.bump('second-save-with-a-new-reference')
         if any((a[0].split(':')[-2] if ':' in a[0] else a[0], a[1]) not in old11 for a in [(x[0], x[1]) for x in allrefs if x[1] in [r[1] for r in refs]]) or any(w.startswith('auto') for w, _, _ in refs):
             ctx.nt(repr(case))
         ctx.bump('refs=%d' % len(refs))
